@@ -21,14 +21,68 @@ import (
 
 // Exclusion tags of the known findings owned by C10 / C11 / C19 (see known_findings.json).
 const (
-	ExclLastEligible   = "UNSTAKE:last-eligible-validator"    // C10: never let the set of electable validators become empty
-	ExclForeignKey     = "STAKE:foreign-consensus-key"        // C10: never stake a record whose consensus key is someone else's or not ed25519
-	ExclEarlyVerdict   = "ALLEGATION:verdict-before-window"   // C10/C19: no allegation while height <= blockVotesDiff
-	ExclForeignWithdr  = "WITHDRAW:foreign-validator-address" // C11: never name an address without a validator record in WITHDRAW
-	ExclZeroPowerStake = "STAKE:zero-power-record"            // C11: never stake on a record whose previous-block power is 0
-	ExclPurgedVerdict  = "ALLEGATION:accused-just-purged"     // C11: no allegation against a validator purged in the last 2 blocks
-	ExclGhostMember    = "UNSTAKE:to-zero-while-entering-set" // C10: never unstake to zero a validator that is elected but not yet a settled member of the tendermint set
+	ExclLastEligible   = "UNSTAKE:last-eligible-validator"     // C10: never let the set of electable validators become empty
+	ExclForeignKey     = "STAKE:foreign-consensus-key"         // C10: never stake a record whose consensus key is someone else's or not ed25519
+	ExclEarlyVerdict   = "ALLEGATION:verdict-before-window"    // C10/C19: no allegation while height <= blockVotesDiff
+	ExclForeignWithdr  = "WITHDRAW:foreign-validator-address"  // C11: never name an address without a validator record in WITHDRAW
+	ExclZeroPowerStake = "STAKE:zero-power-record"             // C11: never stake on a record whose previous-block power is 0
+	ExclPurgedVerdict  = "ALLEGATION_VOTE:accused-not-elected" // C11: no votes on a request whose accused is not a settled elected validator (a verdict must not fall in the block that purges the accused)
+	ExclGhostMember    = "UNSTAKE:to-zero-while-entering-set"  // C10: never unstake to zero a validator that is elected but not yet a settled member of the tendermint set
 )
+
+// AccusedSettled reports whether the validator is elected by the records with a margin: eligible
+// and inside the top count without a tie at the boundary (so the block end will not purge it).
+func AccusedSettled(w *hist.World, v *View, addr string) bool {
+	settled := func(o StakingOpts) bool {
+		el := Eligible(v, o)
+		for i, r := range el {
+			if r.Addr != addr {
+				continue
+			}
+			if int64(i) >= o.Top {
+				return false
+			}
+			if int64(len(el)) > o.Top && el[o.Top].Power == r.Power {
+				return false
+			}
+			return true
+		}
+		return false
+	}
+	if w.P.Frankenstein != 0 && w.C.Height+1 <= w.P.Frankenstein {
+		// a request can stay open across the fork block, which raises the minimum: the accused
+		// must be electable under the forced values as well
+		if !settled(ForkOpts(v.Staking)) {
+			return false
+		}
+		if w.C.Height+1 == w.P.Frankenstein {
+			return true
+		}
+	}
+	return settled(v.Staking)
+}
+
+// FrozenServedBy returns a frozen validator that the stake account d has (or had) stake with
+// ("" if none). The delegation store keeps the validator/delegator pairs after the validator
+// record is gone, so the pairs are read from there.
+func FrozenServedBy(v *View, d string) string {
+	var vals []string
+	for val, ds := range v.Locked {
+		if _, ok := ds[d]; ok && v.IsFrozen(val) {
+			vals = append(vals, val)
+		}
+	}
+	for _, r := range v.Vals {
+		if r.StakeAddr == d && v.IsFrozen(r.Addr) {
+			vals = append(vals, r.Addr)
+		}
+	}
+	if len(vals) == 0 {
+		return ""
+	}
+	sort.Strings(vals)
+	return vals[0]
+}
 
 // ZeroUnstakeSafe reports whether unstaking a validator's whole stake cannot leave it behind in
 // the tendermint set: it is a member of all three pipeline sets (then the removal is issued in
@@ -393,7 +447,7 @@ func (f *Focus) unstake(v *View) []txgen.Tx {
 	after := cur - amt
 	if big.NewInt(after).Cmp(o.Min) < 0 || (f.W.P.Frankenstein > f.W.C.Height && after < 700000) || f.W.P.Maturity >= 100000 && after < 700000 {
 		// would drop below the minimum (now, or after a fork / governance change of the minimum)
-		if f.excl(ExclLastEligible) && r.Addr == AnchorAddr(f.W) {
+		if r.Addr == AnchorAddr(f.W) && f.excl(ExclLastEligible) {
 			return nil
 		}
 	}
@@ -501,17 +555,20 @@ func (f *Focus) withdraw(v *View, foreign bool) []txgen.Tx {
 	if named != nil {
 		valAddr, valKey = named.Key.Addr, named.Key
 	}
-	if foreign || named == nil {
-		if f.excl(ExclForeignWithdr) {
-			if named == nil {
-				return nil
-			}
-		} else {
-			// an address without a validator record, whose key the delegator controls
-			u := f.W.G.U.Users[f.rng(0, len(f.W.G.U.Users)-1, "fakeval")]
-			valAddr, valKey = u.Addr, u
-			tags = append(tags, "val-foreign")
+	if fz := FrozenServedBy(v, d); fz != "" && (foreign || named == nil || named.Key.Addr.String() != fz) && f.excl(ExclForeignWithdr) {
+		// while a validator of this account is frozen, only name that validator (the application refuses)
+		named = f.valByAddr(fz)
+		if named == nil {
+			return nil
 		}
+		valAddr, valKey = named.Key.Addr, named.Key
+		foreign = false
+	}
+	if foreign || named == nil {
+		// an address without a validator record, whose key the delegator controls
+		u := f.W.G.U.Users[f.rng(0, len(f.W.G.U.Users)-1, "fakeval")]
+		valAddr, valKey = u.Addr, u
+		tags = append(tags, "val-foreign")
 	}
 	tx := txgen.WithdrawStake(valAddr, acct.Addr, wholeAmt(amt), f.W.Fee, f.W.Memo(), acct, valKey)
 	tx.Tags = tags
@@ -597,10 +654,7 @@ func (f *Focus) allegation(v *View) []txgen.Tx {
 		if r.Addr == rep.Key.Addr.String() || v.IsFrozen(r.Addr) || busy[r.Addr] {
 			continue
 		}
-		if f.excl(ExclLastEligible) && r.Addr == AnchorAddr(f.W) {
-			continue
-		}
-		if f.excl(ExclPurgedVerdict) && v.Purged[r.Addr] > 0 && h-v.Purged[r.Addr] <= 2 {
+		if r.Addr == AnchorAddr(f.W) && f.excl(ExclLastEligible) {
 			continue
 		}
 		accs = append(accs, r.Addr)
@@ -610,10 +664,7 @@ func (f *Focus) allegation(v *View) []txgen.Tx {
 		acc = accs[f.rng(0, len(accs)-1, "acc")]
 	} else {
 		r := recs[f.rng(0, len(recs)-1, "acc-any")]
-		if f.excl(ExclLastEligible) && r.Addr == AnchorAddr(f.W) {
-			return nil
-		}
-		if f.excl(ExclPurgedVerdict) && v.Purged[r.Addr] > 0 && h-v.Purged[r.Addr] <= 2 {
+		if r.Addr == AnchorAddr(f.W) && f.excl(ExclLastEligible) {
 			return nil
 		}
 		acc = r.Addr
@@ -691,7 +742,15 @@ func (f *Focus) vote(v *View) []txgen.Tx {
 	if len(left) == 0 {
 		return nil
 	}
-	return []txgen.Tx{f.voteTx(q.id, left[f.rng(0, len(left)-1, "voter")], f.choiceFor(q.id))}
+	if !AccusedSettled(f.W, v, q.accused) && f.excl(ExclPurgedVerdict) {
+		return nil
+	}
+	voter := left[f.rng(0, len(left)-1, "voter")]
+	out := []txgen.Tx{f.voteTx(q.id, voter, f.choiceFor(q.id))}
+	if f.pct(15, "vote-dup") {
+		out = append(out, f.voteTx(q.id, voter, f.choiceFor(q.id), "vote-duplicate"))
+	}
+	return out
 }
 
 // voteWave votes on every open request with about as many voters as a verdict needs, so that
@@ -708,6 +767,9 @@ func (f *Focus) voteWave(v *View) []txgen.Tx {
 		req = int((int64(nAct)*e.ValidatorVotePercentage + e.ValidatorVoteDecimals - 1) / e.ValidatorVoteDecimals)
 	}
 	for _, q := range f.openReqs(v) {
+		if !AccusedSettled(f.W, v, q.accused) && f.excl(ExclPurgedVerdict) {
+			continue
+		}
 		left := f.votersLeft(v, q.id)
 		k := req + f.rng(-1, 1, "wave-d")
 		if k > len(left) {
@@ -715,7 +777,12 @@ func (f *Focus) voteWave(v *View) []txgen.Tx {
 		}
 		for i := 0; i < k; i++ {
 			j := f.rng(0, len(left)-1, "wave-voter")
-			out = append(out, f.voteTx(q.id, left[j], f.choiceFor(q.id), "wave"))
+			ch := f.choiceFor(q.id)
+			out = append(out, f.voteTx(q.id, left[j], ch, "wave"))
+			if f.pct(10, "wave-dup") {
+				// the same validator votes a second time (must not count)
+				out = append(out, f.voteTx(q.id, left[j], 3-ch, "vote-duplicate"))
+			}
 			left = append(left[:j:j], left[j+1:]...)
 		}
 	}
@@ -984,6 +1051,10 @@ func FilterShared(w *hist.World, v *View, txs []txgen.Tx, excl func(string) bool
 	anchor := AnchorAddr(w)
 	h := w.C.Height + 1
 	var out []txgen.Tx
+	accusedOf := map[string]string{}
+	for id, q := range v.Reqs {
+		accusedOf[id] = q.Accused
+	}
 	for _, tx := range txs {
 		ti := DecodeTx(tx.Bytes)
 		drop := false
@@ -995,13 +1066,32 @@ func FilterShared(w *hist.World, v *View, txs []txgen.Tx, excl func(string) bool
 			}
 		case "ALLEGATION":
 			drop = (ti.Accused == anchor && excl(ExclLastEligible)) ||
-				(h <= v.Evidence.BlockVotesDiff && excl(ExclEarlyVerdict)) ||
-				(v.Purged[ti.Accused] > 0 && h-v.Purged[ti.Accused] <= 2 && excl(ExclPurgedVerdict))
+				(h <= v.Evidence.BlockVotesDiff && excl(ExclEarlyVerdict))
+			if !drop && accusedOf[ti.ReqID] == "" {
+				accusedOf[ti.ReqID] = ti.Accused
+			}
+		case "ALLEGATION_VOTE":
+			if acc := accusedOf[ti.ReqID]; acc != "" {
+				drop = !AccusedSettled(w, v, acc) && excl(ExclPurgedVerdict)
+			}
 		case "STAKE":
 			r := v.Vals[ti.Val]
 			drop = (r != nil && r.Power <= 0 || r == nil && v.TotalOf(ti.Val).Sign() > 0) && excl(ExclZeroPowerStake)
+			if !drop && len(ti.PubData) > 0 {
+				foreignKey := ti.PubType != "ed25519"
+				if !foreignKey {
+					if pk, err := keys.GetPublicKeyFromBytes(ti.PubData, keys.ED25519); err != nil {
+						foreignKey = true
+					} else if ph, err := pk.GetHandler(); err != nil || Addr(ph.Address()) != ti.Val {
+						foreignKey = true
+					}
+				}
+				drop = foreignKey && excl(ExclForeignKey)
+			}
 		case "WITHDRAW":
-			drop = v.Vals[ti.Val] == nil && excl(ExclForeignWithdr)
+			if fz := FrozenServedBy(v, ti.Deleg); fz != "" && ti.Val != fz {
+				drop = excl(ExclForeignWithdr)
+			}
 		}
 		if !drop {
 			out = append(out, tx)
